@@ -284,7 +284,51 @@ def run(ctx):
             ctx.bad("R02.5", f, "stream-manipulated:%s:%s" % (tag, what[:40]), "as<T>() applies `%s` to the conversion stream: the decimal text given on the command line is no longer read as the number it spells" % what, (f, n.get("ln")))
         if not bad:
             ctx.ok("R02.5", f, "plain-insert-extract:" + tag, "%d stream operations, all plain" % nops, f)
+        # the text is extracted INTO the requested type and handed back as it is: an intermediate of another type (read as long long, then
+        # narrowed) gives a different number wherever the two types' ranges differ (unsigned 64-bit values above LLONG_MAX)
+        want_t = f.ret if f.ret and f.ret not in ("auto",) else None
+        if want_t and re.match(r"(typename )?std::enable_if(_t)?<", want_t):
+            # enable_if_t<condition, T>: the second argument (top-level comma)
+            inner = want_t[want_t.index("<") + 1:want_t.rindex(">")]
+            depth0, cut = 0, None
+            for j, ch in enumerate(inner):
+                if ch in "<(":
+                    depth0 += 1
+                elif ch in ">)":
+                    depth0 -= 1
+                elif ch == "," and depth0 == 0:
+                    cut = j
+            want_t = inner[cut + 1:].strip() if cut is not None else None
+        for bid, i, e in f.roots():
+            x = e["expr"]
+            if x.get("k") == "decl":
+                for v in x.get("vars", []):
+                    if v["name"] == "result" or any(fmt(ir.unwrap(ir.as_binop(n2)[2])) == v["name"] for _, _, e2 in f.roots() for n2 in walk(e2["expr"], into_sc=False) if ir.as_binop(n2) and ir.as_binop(n2)[0] == ">>"):
+                        vt = (v.get("type") or "").strip()
+                        ctx.check(want_t is None or vt == want_t.strip(), "R02.5", f, "extracts-into-requested-type:" + tag,
+                                  "as<T>() extracts the text into a `%s` and returns `%s`: the number goes through a type of another range" % (vt, want_t), (f, e.get("ln")), why_ok="extracted as %s" % vt)
+        for bid, i, e in f.roots():
+            x = e["expr"]
+            if x.get("k") == "return" and x.get("e") is not None:
+                r0 = ir.unwrap(x["e"])
+                while isinstance(r0, dict) and r0.get("k") == "construct" and len(r0.get("args", [])) == 1 and (r0.get("copy") or r0.get("move") or r0.get("elidable")):
+                    r0 = ir.unwrap(r0["args"][0])
+                plain = isinstance(r0, dict) and (r0.get("k") == "ref" or (r0.get("k") == "call" and (r0.get("name") or "") == "std::move"))
+                ctx.check(plain, "R02.5", f, "returns-extracted-value:" + tag, "as<T>() returns `%s` instead of the extracted value itself (a conversion after the extraction)" % fmt(r0)[:60], (f, e.get("ln")))
 
+    # ---- R02.9: when one spelling could mean two things, value-taking options are asked first
+    ctx.rule("R02.9", "in the token loop both try_parse_as_option attempts (options, multi-options) come before try_parse_as_toggle: `--no-cache` spells the option `no-cache` "
+                      "where one is declared, and only otherwise the reversal of the toggle `cache`")
+    pv = prog.fn(PARSE_VEC)
+    if ctx.anchor("R02.9", "parser::parse", pv is not None and pv.has_cfg):
+        tpo_ids = sorted({n.get("callee") for _, _, e in pv.roots() for n in elem_calls(e) if short(n.get("name") or "") == "try_parse_as_option" and n.get("callee")})
+        ctx.need("R02.9", "try_parse_as_option instantiations called from parse()", len(tpo_ids), 2)
+        is_tog = lambda e: e.get("expr") is not None and any(short(n.get("name") or "") == "try_parse_as_toggle" for n in elem_calls(e))
+        for cid in tpo_ids:
+            okp, pth = cfg.must_precede(pv, lambda e, cid=cid: e.get("expr") is not None and any(n.get("callee") == cid for n in elem_calls(e)), is_tog)
+            kind = "multi_option" if "multi_option" in cid else "option"
+            ctx.check(okp, "R02.9", pv, "options-before-toggles:" + kind, "try_parse_as_toggle can run (B%s) before the %ss were asked: a `--no-<x>` token goes to the toggle <x> although an option named `no-<x>` is declared"
+                      % ("->B".join(map(str, pth or [])), kind), pv)
     # ---- R02.4
     nlit = 0
     for c in ctors:
